@@ -287,6 +287,10 @@ def plan(prop, tier):
                           ("skip", dict(n=1)), ("skip", dict(n=2))):
             nm = kind + str(par.get("n", par.get("p", ""))) + "_pull"
             fams.append((nm, scen.with_bounds(scen.unary(kind, mode="pull", **par), kind, **pb), None))
+        # a predicate that rejects the first item and accepts the following ones (a rejection that arrives late,
+        # then two accepted items in a row), four items
+        fams.append(("filtergt11_pull", scen.with_bounds(scen.unary("filter", mode="pull", p="gt11"), "filter", maxData=4,
+                                                        maxTop=5, maxPull=3, allowFail=False, c14=True), None))
         fams.append(("concat2_pull", scen.with_bounds(scen.nary("concat", 2, mode="pull"), "concat", maxData=1,
                                                      maxTop=4, maxPull=3, allowFail=True, c14=True), None))
         fams.append(("concat3_pull", scen.with_bounds(scen.nary("concat", 3, mode="pull"), "concat", maxData=1,
